@@ -1,10 +1,115 @@
 import GormModel.Drv.Util
+import GormModel.Model.Migrate
 open Lean
 namespace Gorm.Drv
+open Gorm.Mig
 
-/-- line-protocol handler for C20 (ops are JSON arrays `[opname, args…]`); returns `none` for ops it does not own -/
+def oStr (j : Json) (k : String) : Option Str := (j.getObjVal? k).toOption >>= jStr? |>.map String.toList
+def oBool (j : Json) (k : String) : Option Bool := (j.getObjVal? k).toOption >>= jBool?
+def oInt (j : Json) (k : String) : Option Int := (j.getObjVal? k).toOption >>= jInt?
+def oArr (j : Json) (k : String) : Option (Array Json) := (j.getObjVal? k).toOption >>= jArr?
+def sJ (s : Str) : Json := Json.str (String.ofList s)
+
+def parseGType : Str → GType
+  | ['t', 'i', 'm', 'e'] => .time
+  | ['b', 'o', 'o', 'l'] => .bool
+  | _ => .other
+
+def parseField (j : Json) : Option FieldDecl := do
+  some { dbName := ← oStr j "db", ignoreMigration := ← oBool j "ignore", primaryKey := ← oBool j "pk",
+         dataTypeSql := ← oStr j "type", size := ← oInt j "size", precision := ← oInt j "prec",
+         notNull := ← oBool j "notnull", hasDefault := ← oBool j "hasdef", defaultIface := ← oBool j "defiface",
+         defaultValue := ← oStr j "def", defaultExplained := ← oStr j "defx", gtype := parseGType (← oStr j "gtype"),
+         comment := ← oStr j "comment", unique := ← oBool j "unique" }
+
+def pairIB (j : Json) (k : String) : Option (Int × Bool) := do
+  let a ← oArr j k
+  some (← jInt? (arg a 0), ← jBool? (arg a 1))
+def pairBB (j : Json) (k : String) : Option (Bool × Bool) := do
+  let a ← oArr j k
+  some (← jBool? (arg a 0), ← jBool? (arg a 1))
+def pairSB (j : Json) (k : String) : Option (Str × Bool) := do
+  let a ← oArr j k
+  some ((← jStr? (arg a 0)).toList, ← jBool? (arg a 1))
+
+def parseCol (j : Json) : Option ColumnInfo := do
+  some { typeName := ← oStr j "type", aliases := (← (← oArr j "aliases").toList.mapM jStr?).map String.toList,
+         length := ← pairIB j "length", decimal := ← pairIB j "decimal", nullable := ← pairBB j "nullable",
+         dflt := ← pairSB j "default", comment := ← pairSB j "comment", unique := ← pairBB j "unique" }
+
+def actJ : ColAct → Json
+  | .alter => Json.str "alter"
+  | .dropUnique => Json.str "dropUnique"
+  | .createUnique => Json.str "createUnique"
+
+def strs (j : Json) (k : String) : Option (List Str) := do
+  some ((← (← oArr j k).toList.mapM jStr?).map String.toList)
+
+def parseModel (j : Json) : Option ModelDecl := do
+  some { table := ← oStr j "table", fields := ← (← oArr j "fields").toList.mapM parseField,
+         fks := ← strs j "fks", checks := ← strs j "checks", indexes := ← strs j "indexes" }
+
+def parseTable (j : Json) : Option TableState := do
+  let cols ← (← oArr j "cols").toList.mapM fun c => do
+    some (← oStr c "name", ← parseCol (← (c.getObjVal? "info").toOption))
+  some { cols := cols, constraints := ← strs j "constraints", indexes := ← strs j "indexes" }
+
+def ddlJ : DDL → Json
+  | .createTable m => Json.arr #[Json.str "createTable", sJ m.table]
+  | .addColumn _ f => Json.arr #[Json.str "addColumn", sJ f.dbName]
+  | .alterColumn _ f => Json.arr #[Json.str "alterColumn", sJ f.dbName]
+  | .createUnique _ f => Json.arr #[Json.str "createUnique", sJ f.dbName]
+  | .dropUnique _ f => Json.arr #[Json.str "dropUnique", sJ f.dbName]
+  | .createConstraint _ n => Json.arr #[Json.str "createConstraint", sJ n]
+  | .createIndex _ n => Json.arr #[Json.str "createIndex", sJ n]
+
+def parseDeps (j : Json) : Option ModelDeps := do
+  let joins ← (← oArr j "joins").toList.mapM fun x => do
+    let a ← jArr? x
+    let fs := match arg a 0 with
+      | Json.null => none
+      | v => (jStr? v).map String.toList
+    some (fs, (← jStr? (arg a 1)).toList)
+  some { table := ← oStr j "table", depends := ← strs j "depends", joins := joins }
+
+def parseEntry (j : Json) : Option IdxEntry := do
+  some { name := ← oStr j "name", cls := ← oStr j "class", typ := ← oStr j "type", whr := ← oStr j "where",
+         comment := ← oStr j "comment", option := ← oStr j "option", field := ← oStr j "field", priority := ← oInt j "priority" }
+
+/-- ops:
+    ["mig.column", field, col]            -> {"acts":[…], "full": lower-cased full type, "trace":{…}}
+    ["mig.auto", model, table|null]       -> [[kind, name]…]   (one AutoMigrate iteration for one model)
+    ["mig.reorder", [deps…], [values…], autoAdd] -> [table…]
+    ["mig.indexes", [entries…]]           -> [{name,class,type,where,comment,option,fields:[[field,priority]…]}…] -/
 def handleC20 (op : String) (args : Array Json) : Option Json := do
   match op with
+  | "mig.column" =>
+    let f ← parseField (arg args 1)
+    let ci ← parseCol (arg args 2)
+    let t := trace f ci
+    some (Json.mkObj [
+      ("acts", Json.arr ((migrateColumn f ci).map actJ).toArray),
+      ("full", sJ (fullLower f)),
+      ("trace", Json.mkObj [("type", Json.bool t.typeAlter), ("same", Json.bool t.sameType), ("size", Json.bool t.sizeAlter),
+        ("prec", Json.bool t.precAlter), ("null", Json.bool t.nullAlter), ("before", Json.bool t.beforeDefault),
+        ("after", Json.bool t.afterDefault), ("comment", Json.bool t.commentAlter)])])
+  | "mig.auto" =>
+    let m ← parseModel (arg args 1)
+    let c : Catalog ← match arg args 2 with
+      | Json.null => some []
+      | t => (parseTable t).map (fun ts => [(m.table, ts)])
+    some (Json.arr ((autoMigrateOne m c).map ddlJ).toArray)
+  | "mig.reorder" =>
+    let g ← (← jArr? (arg args 1)).toList.mapM parseDeps
+    let vs := (← (← jArr? (arg args 2)).toList.mapM jStr?).map String.toList
+    let autoAdd ← jBool? (arg args 3)
+    some (Json.arr ((reorderModels g vs autoAdd).map sJ).toArray)
+  | "mig.indexes" =>
+    let es ← (← jArr? (arg args 1)).toList.mapM parseEntry
+    some (Json.arr ((parseIndexes es).map fun i => Json.mkObj [
+      ("name", sJ i.name), ("class", sJ i.cls), ("type", sJ i.typ), ("where", sJ i.whr), ("comment", sJ i.comment),
+      ("option", sJ i.option),
+      ("fields", Json.arr (i.fields.map fun p => Json.arr #[sJ p.1, Json.num (JsonNumber.fromInt p.2)]).toArray)]).toArray)
   | _ => none
 
 end Gorm.Drv
